@@ -33,6 +33,7 @@ import (
 	"math/rand/v2"
 	"net/netip"
 	"reflect"
+	"runtime/debug"
 	"sort"
 	"testing"
 
@@ -1428,6 +1429,7 @@ func grid() []*am {
 func TestCheck(t *testing.T) {
 	r := vk.New("C06")
 	defer r.Done()
+	debug.SetGCPercent(400) // many short-lived buffers of up to 1 MiB; the live heap stays small
 	r.Note("normal_forms", "empty == nil for byte strings, maps and peer lists; PEX lists compare as IPv4 entries in order then IPv6 entries in order (IPv4-mapped IPv6 addresses are 16-byte entries); flags of dropped peers are not on the wire; reader reports its own sub-ids")
 	r.Note("frame_cap", fmt.Sprintf("largest frame generated = %d bytes after the length prefix (the reader's cap)", frameCap))
 
